@@ -136,7 +136,7 @@ fn run_via_server(stim: &Value, rec: &Rec) {
         let (mut client, conn) = match h2::client::handshake(c_io).await { Ok(x) => x, Err(e) => { log.ev(json!({"e":"h2_err","msg":e.to_string()})); return; } };
         let connt = tokio::spawn(async move { let _ = conn.await; });
         let full = http::Uri::builder().scheme("http").authority("lab.test").path_and_query(uri.path_and_query().unwrap().clone()).build().unwrap();
-        let req = http::Request::builder().method("POST").uri(full).header("content-type", "application/grpc").header("te", "trailers").body(()).unwrap();
+        let req = http::Request::builder().method("POST").uri(full).header("content-type", stim["ctype"].as_str().unwrap_or("application/grpc")).header("te", "trailers").body(()).unwrap();
         let r: Result<(), String> = async {
             let (resp, mut send) = client.send_request(req, false).map_err(|e| e.to_string())?;
             send.send_data(Bytes::from_static(&[0, 0, 0, 0, 1, 7]), !open).map_err(|e| e.to_string())?;
@@ -167,7 +167,7 @@ pub fn run(stim: &Value, rec: &Rec) {
     let open = stim["body"].as_str() == Some("open");
     let body = if open { Body::new(OpenBody(Some(Bytes::from_static(&[0, 0, 0, 0, 1, 7])))) } else { Body::new(http_body_util::Full::new(Bytes::from_static(&[0, 0, 0, 0, 1, 7]))) };
     let req = http::Request::builder().method("POST").version(http::Version::HTTP_2).uri(uri)
-        .header("content-type", "application/grpc").header("te", "trailers")
+        .header("content-type", stim["ctype"].as_str().unwrap_or("application/grpc")).header("te", "trailers")
         .body(body).unwrap();
     let run = async {
         // prepare() is documented as an optional optimisation: two thirds of the tables are used without it
